@@ -34,6 +34,9 @@ def base_messages(bc, codec, seed, n):
                     v = (v * 40)[:f['field_length']]
                 k += 7
             m['DE' + b] = v
+        for b in pick:
+            if bc[b].get('field_processor') == 'ICC' and i % 2 == 0:
+                m['DE' + b] = b'\x9f\x26\x08' + bytes(range(0xf8, 0x100)) + b'\x82\x02\x80\x00'
         if any(bc[b].get('field_processor') == 'PDS' for b in pick) or i % 3 == 0:
             for t in range(r.randrange(1, 4)):
                 m['PDS%04d' % r.randrange(1, 9999)] = isoc.rtext(r, r.randrange(0, 30), alpha, 'safe')
@@ -197,6 +200,8 @@ def drive(args):
 
     def add(desc, data, base):
         nonlocal tid
+        if tid % 97 == 13:
+            drv.hazard(drv.rng(seed, 'hazard', tid))
         e, d = isoc.do_loads(data, codec, bc, hexb)
         traces.append({'tid': tid, 'hex': hexb, 'events': [e], '_desc': desc, '_m': base,
                        '_d': repr(d)[:300] if d is not None else None})
